@@ -284,8 +284,15 @@ class Result:
             f.write("\n")
         for k, (e, n) in sorted(seen_known.items()):
             print("KNOWN-FINDING: property=%s %s [%s] (%d cases)" % (self.prop, e["what"], k, n))
+        # replay files describe this run only: drop those of earlier runs
+        d = os.path.join(REPLAYS, self.prop)
+        if os.path.isdir(d):
+            for fn in os.listdir(d):
+                if fn.endswith(".json"):
+                    os.remove(os.path.join(d, fn))
+            if not os.listdir(d):
+                os.rmdir(d)
         if new:
-            d = os.path.join(REPLAYS, self.prop)
             os.makedirs(d, exist_ok=True)
             shown = set()
             for v in new:
